@@ -102,7 +102,14 @@ func (g *GoFakeS3) timeSkewMiddleware(handler http.Handler) http.Handler {
 		timeHdr := rq.Header.Get("x-amz-date")
 
 		if timeHdr != "" {
-			rqTime, _ := time.Parse("20060102T150405Z", timeHdr)
+			rqTime, perr := time.Parse("20060102T150405Z", timeHdr)
+			if perr != nil {
+				// Signature version 2 clients send an HTTP-date, with "GMT"
+				// or a numeric zone. (What cannot be read stays the zero time.)
+				if rqTime, perr = http.ParseTime(timeHdr); perr != nil {
+					rqTime, _ = time.Parse(time.RFC1123Z, timeHdr)
+				}
+			}
 			at := g.timeSource.Now()
 			skew := at.Sub(rqTime)
 
